@@ -288,6 +288,8 @@ pub struct Explored<S: Sys> {
     pub outcomes: BTreeMap<String, u64>,
     /// traces to a few final states (for replay validation): (trace, final key, outcome)
     pub final_traces: Vec<(Vec<S::Act>, String, String)>,
+    /// traces to an evenly spaced selection of all discovered states: (trace, key)
+    pub state_traces: Vec<(Vec<S::Act>, String)>,
     pub cap_hit: bool,
 }
 
@@ -297,6 +299,8 @@ pub struct Limits {
     pub keep_final_traces: usize,
     /// stop expanding after the first violation for each key
     pub max_found: usize,
+    /// how many traces to arbitrary discovered states to hand back for replay validation
+    pub keep_state_traces: usize,
 }
 
 impl Default for Limits {
@@ -305,6 +309,7 @@ impl Default for Limits {
             max_states: 5_000_000,
             keep_final_traces: 4,
             max_found: 8,
+            keep_state_traces: 4,
         }
     }
 }
@@ -343,6 +348,7 @@ pub fn explore<S: Sys>(init: S, lim: &Limits) -> Explored<S> {
         found: Vec::new(),
         outcomes: BTreeMap::new(),
         final_traces: Vec::new(),
+        state_traces: Vec::new(),
         cap_hit: false,
     };
     let mut found_keys: std::collections::HashSet<String> = Default::default();
@@ -448,7 +454,51 @@ pub fn explore<S: Sys>(init: S, lim: &Limits) -> Explored<S> {
             break;
         }
     }
+    if lim.keep_state_traces > 0 && nodes.len() > 1 {
+        let k = lim.keep_state_traces.min(nodes.len() - 1);
+        let mut want: Vec<u32> = (1..=k).map(|j| (j * (nodes.len() - 1) / k) as u32).collect();
+        want.dedup();
+        let by_idx: HashMap<u32, &String> = seen.iter().filter(|(_, i)| want.contains(i)).map(|(k, i)| (*i, k)).collect();
+        for i in want {
+            if let Some(k) = by_idx.get(&i) {
+                out.state_traces.push((trace_of(&nodes, i), (*k).clone()));
+            }
+        }
+    }
     out
+}
+
+/// Replay the kept traces of an exploration on fresh objects (no cloning, no dedup) and require
+/// the same state key. A divergence is a machinery failure (nondeterminism or an unfaithful
+/// Clone / fingerprint hook), never a verdict.
+pub fn validate_traces<S: Sys>(fresh: impl Fn() -> S, ex: &Explored<S>) -> Result<u64, String> {
+    let mut n = 0;
+    let all = ex
+        .state_traces
+        .iter()
+        .map(|(t, k)| (t, k))
+        .chain(ex.final_traces.iter().map(|(t, k, _)| (t, k)));
+    for (t, k) in all {
+        for _round in 0..2 {
+            match replay_trace(fresh(), t) {
+                Ok(s) => {
+                    if &s.key() != k {
+                        return Err(format!(
+                            "replay divergence: explorer reached {} but a fresh replay of {:?} reached {}",
+                            k,
+                            t,
+                            s.key()
+                        ));
+                    }
+                }
+                Err((key, what)) => {
+                    return Err(format!("replay divergence: fresh replay of {:?} failed [{}] {}", t, key, what))
+                }
+            }
+        }
+        n += 1;
+    }
+    Ok(n)
 }
 
 /// Extract "file:line" from a guarded() panic message for use in a structural key.
